@@ -327,8 +327,14 @@ func TestDrv_C12(t *testing.T) {
 	}
 	for c := 0; c < nRandom; c++ {
 		n := 1 + r.Intn(20)
+		if c%7 == 0 {
+			n = 40 + r.Intn(60) // many buckets
+		}
 		set := map[uint64]bool{}
 		maxv := []uint64{50, 5000, 5e9, 4 * 3600e9}[r.Intn(4)]
+		if maxv < uint64(4*n) {
+			maxv = uint64(4 * n)
+		}
 		for len(set) < n {
 			set[uint64(r.Int63n(int64(maxv)))] = true
 		}
